@@ -98,6 +98,8 @@ def breakers(draw, schema):
     dyn = draw(st.sampled_from(by_stiff[DYNAMIC]))
     unl = draw(st.sampled_from(by_stiff[UNLIMITED]))
     nonfixed = draw(st.sampled_from([dyn, unl]))
+    # the sizer's name: arbitrary, or the name prophyc itself gives the counter of `a<>` / `a<N>`
+    sn = draw(st.sampled_from(['n', 'len', 'num_of_a', 'num_of_a', 'a_len', 'num_of_b']))
     rules = {
         'R1a greedy array not last': _struct_text('XBad', ['u8 a<...>;', 'u8 b;']),
         'R1b unlimited struct not last': _struct_text('XBad', ['%s a;' % unl, 'u8 b;']),
@@ -108,15 +110,15 @@ def breakers(draw, schema):
         'R4 dynamic/unlimited struct in limited array': _struct_text('XBad', ['%s a<2>;' % nonfixed]),
         'R5 dynamic/unlimited struct optional': _struct_text('XBad', ['%s* a;' % nonfixed]),
         'R6 dynamic/unlimited struct as union arm': 'union XBad\n{\n    1: %s a;\n    2: u8 b;\n};\n' % nonfixed,
-        'R8 sizer missing': _struct_text('XBad', ['u8 a<@nosuch>;']),
-        'R9 sizer after its array': _struct_text('XBad', ['u8 a<@n>;', 'u8 n;']),
-        'R10 sizer optional': _struct_text('XBad', ['u32* n;', 'u8 a<@n>;']),
-        'R11a sizer float': _struct_text('XBad', ['float n;', 'u8 a<@n>;']),
-        'R11b sizer composite': 'struct XS\n{\n    u8 q;\n};\n' + _struct_text('XBad', ['XS n;', 'u8 a<@n>;']),
-        'R11c sizer is a fixed array': _struct_text('XBad', ['u8 n[2];', 'u8 a<@n>;']),
-        'R11d sizer is a dynamic array': _struct_text('XBad', ['u16 n<>;', 'u8 a<@n>;']),
-        'R11e sizer is an enum': 'enum XSE\n{\n    XSE_a = 1\n};\n' + _struct_text('XBad', ['XSE n;', 'u8 a<@n>;']),
-        'R11f sizer typedef of double': 'typedef double XTD;\ntypedef XTD XTD2;\n' + _struct_text('XBad', ['XTD2 n;', 'u8 a<@n>;']),
+        'R8 sizer missing': _struct_text('XBad', ['u8 a<@%s>;' % sn]),
+        'R9 sizer after its array': _struct_text('XBad', ['u8 a<@%s>;' % sn, 'u8 %s;' % sn]),
+        'R10 sizer optional': _struct_text('XBad', ['u32* %s;' % sn, 'u8 a<@%s>;' % sn]),
+        'R11a sizer float': _struct_text('XBad', ['float %s;' % sn, 'u8 a<@%s>;' % sn]),
+        'R11b sizer composite': 'struct XS\n{\n    u8 q;\n};\n' + _struct_text('XBad', ['XS %s;' % sn, 'u8 a<@%s>;' % sn]),
+        'R11c sizer is a fixed array': _struct_text('XBad', ['u8 %s[2];' % sn, 'u8 a<@%s>;' % sn]),
+        'R11d sizer is a dynamic array': _struct_text('XBad', ['u16 %s<>;' % sn, 'u8 a<@%s>;' % sn]),
+        'R11e sizer is an enum': 'enum XSE\n{\n    XSE_a = 1\n};\n' + _struct_text('XBad', ['XSE %s;' % sn, 'u8 a<@%s>;' % sn]),
+        'R11f sizer typedef of double': 'typedef double XTD;\ntypedef XTD XTD2;\n' + _struct_text('XBad', ['XTD2 %s;' % sn, 'u8 a<@%s>;' % sn]),
         'R12a duplicate field name': _struct_text('XBad', ['u8 a;', 'u16 a;']),
         'R12b duplicate type name': _struct_text('XBad', ['u8 a;']) + _struct_text('XBad', ['u8 b;']),
         'R12c duplicate enumerator name': 'enum XE1\n{\n    XE_a = 1\n};\nenum XE2\n{\n    XE_a = 2\n};\n',
